@@ -359,6 +359,18 @@ func runC42(c *Ctx) {
 			okSet = okSet && wild("(gateway/routing.NetworkMatcher).IPSet("+ruleAt+".Network)#0", a)
 		}
 		c.Check(okSet, rule, v.Name()+":rule-network", v.Fn.Pos(), "AddSet/RemoveSet use the matching rule's Network.IPSet()")
+		// the converse: a rule whose From and To match IS applied - a way round the loop that
+		// neither adds nor removes crosses a failed From/To match (or an action that is neither)
+		var applied []*ssa.BasicBlock
+		for _, in := range append(append([]ssa.Instruction{}, add...), rem...) {
+			applied = append(applied, in.Block())
+		}
+		okConv, inLoop := loopSkipsOnlyVia(v, applied, []string{
+			"-true(invoke:gateway/routing.IAMatcher.Match(" + ruleAt + ".From; arg0))",
+			"-true(invoke:gateway/routing.IAMatcher.Match(" + ruleAt + ".To; arg1))",
+			"-eq(" + ruleAt + ".Action, " + reject + ")"})
+		c.Check(okConv && inLoop, rule, v.Name()+":matching-rule-is-applied", v.Fn.Pos(),
+			"no rule whose From and To match is skipped: every way round the loop that neither adds nor removes crosses a failed match")
 		// loop direction: i starts at len-1, steps by -1, runs while i >= 0
 		okDir := false
 		for _, b := range v.Fn.Blocks {
